@@ -87,6 +87,33 @@ example : Sema.Gen.FactsC10.phases =
 /-- … and `removeInbound` that of `removeInboundEdges` -/
 example : Sema.Gen.FactsC10.removeInboundPhases = ["edgeScan", "pruneDeleteNeighbour", "rescueOntoEntry"] := by decide
 
+
+/-! T2 for the change stream: the syntactic shape of the code `pstep` / `changeOf` model, regenerated from
+the working tree on every check -/
+
+/-- `pstep`: an insert is never withheld from the indices; an update / a delete only when the point does not
+exist (`docOf S i = none`) … -/
+example : Sema.Gen.FactsC10.insertSkips = [] ∧
+    Sema.Gen.FactsC10.updateSkips = ["err == pointstore.ErrPointDoesNotExist"] ∧
+    Sema.Gen.FactsC10.deleteSkips = ["err == pointstore.ErrPointDoesNotExist"] := by decide
+
+/-- … and the change carries the node id with (insert) the new document, (update) the stored and the merged
+document, (delete) the stored document: the `prev` / `cur` arguments of `changeOf` in `pstep` -/
+example : Sema.Gen.FactsC10.insertChange = ["NodeId", "NewData"] ∧
+    Sema.Gen.FactsC10.updateChange = ["NodeId", "PreviousData", "NewData"] ∧
+    Sema.Gen.FactsC10.deleteChange = ["NodeId", "PreviousData"] := by decide
+
+/-- `changeOf`: the dispatcher asks `getOperation` for EVERY key of the index schema with both documents, and
+leaves an index alone only on `opSkip` … -/
+example : Sema.Gen.FactsC10.dispatchRange = "propName of im.indexSchema" ∧
+    Sema.Gen.FactsC10.dispatchOperationArgs = ["dec", "propName", "change.PreviousData", "change.NewData"] ∧
+    Sema.Gen.FactsC10.dispatchSkips = ["op == opSkip"] := by decide
+
+/-- … which is the case "absent before and after" -/
+example : Sema.Gen.FactsC10.operationCases =
+    ["prevProp == nil && currentProp != nil => opInsert", "prevProp != nil && currentProp != nil => opUpdate",
+     "prevProp != nil && currentProp == nil => opDelete", "prevProp == nil && currentProp == nil => opSkip"] := by decide
+
 /-! ### non-vacuity and the defect of the unrepaired bookkeeping -/
 
 /-- distances of the examples: |a - b| on the ids themselves, alpha = 2 -/
